@@ -2,7 +2,7 @@
 //! on the tile's MARE chunk) + WdlParser::parse -> field comparison -> second write;
 //! convert_wdl_file over all version pairs.
 use crate::walker::*;
-use crate::wdt::{brief, gen_name, grid, mix, name_shape, GRIDS, NAME_SHAPES};
+use crate::wdt::{brief, grid, mix, name_shape, GRIDS, NAME_SHAPES};
 use serde_json::{json, Value};
 use std::collections::BTreeMap;
 use std::io::Cursor;
@@ -561,7 +561,7 @@ pub fn roundtrip(f: &WdlFile, m: &WdlModel, pre: &str, light: bool, r: &mut Case
     };
     r.count("wdl_roundtrips", 1);
     r.count("wdl_bytes_written", bytes1.len() as u64);
-    walk_check(&bytes1, m, pre, r);
+    let maof = walk_check(&bytes1, m, pre, r);
     let parsed = match WdlParser::with_version(m.version).parse(&mut Cursor::new(&bytes1)) {
         Ok(p) => p,
         Err(e) => {
@@ -569,7 +569,14 @@ pub fn roundtrip(f: &WdlFile, m: &WdlModel, pre: &str, light: bool, r: &mut Case
             return "parser rejected".into();
         }
     };
-    compare(m, &extract(&parsed), &format!("{pre}: parse(write(f))"), true, r);
+    // `Latest` is the auto-detecting placeholder: the parser replaces it by what it detects, so the version field is not judged there
+    compare(m, &extract(&parsed), &format!("{pre}: parse(write(f))"), m.version != WdlVersion::Latest, r);
+    // the offset table the parser hands out must be the one in the bytes
+    if let Some(mo) = maof {
+        if let Some(i) = (0..4096usize).find(|&i| parsed.map_tile_offsets[i] != u32le(&bytes1, mo + 4 * i)) {
+            r.viol(format!("{pre}: parse(write(f)): map_tile_offsets differ from the MAOF table in the bytes"), format!("entry y*64+x={} parsed={} bytes={}", i, parsed.map_tile_offsets[i], u32le(&bytes1, mo + 4 * i)));
+        }
+    }
     match write_wdl(m.version, &parsed) {
         Ok(bytes2) => {
             if bytes2 != bytes1 {
@@ -589,6 +596,12 @@ pub fn roundtrip(f: &WdlFile, m: &WdlModel, pre: &str, light: bool, r: &mut Case
                     auto = format!("{:?}", p.version);
                 }
                 compare(m, &extract(&p), &format!("{pre}: auto-detecting parse(write(f))"), false, r);
+                // observation (not judged): writing what the auto-detecting parser returned, under the version it guessed
+                if let Ok(b3) = write_wdl(p.version, &p) {
+                    if b3 != bytes1 {
+                        r.count("wdl_rewrite_of_autodetected_parse_differs", 1);
+                    }
+                }
             }
             Err(e) => r.viol(format!("{pre}: auto-detecting parser rejects the writer's output"), format!("{e}")),
         }
@@ -634,16 +647,37 @@ struct WCase {
 }
 fn shape_name(vi: usize, shape: usize) -> String {
     if can_wmo(vi) {
-        format!("{} WMO names, {} MODF placements", MODEL_SHAPES[shape].0, MODEL_SHAPES[shape].1)
+        let (n, ni, p) = wmo_shapes()[shape];
+        if ni == n {
+            format!("{} WMO names, {} MODF placements", n, p)
+        } else {
+            format!("{} WMO names, {} MWID entries, {} MODF placements", n, ni, p)
+        }
     } else if can_ml(vi) {
-        format!("{} MLDD/MLDX, {} MLMD/MLMX", ML_SHAPES[shape].0, ML_SHAPES[shape].1)
+        let [a, av, b, bv] = ml_shapes()[shape];
+        if a == av && b == bv {
+            format!("{} MLDD/MLDX, {} MLMD/MLMX", a, b)
+        } else {
+            format!("{} MLDD, {} MLDX, {} MLMD, {} MLMX", a, av, b, bv)
+        }
     } else {
         "no model chunks in this version".into()
     }
 }
+/// the shapes of the quick tier
 fn shapes_for(vi: usize) -> Vec<usize> {
     if can_wmo(vi) || can_ml(vi) {
-        (0..6).collect()
+        (0..SHAPES_Q).collect()
+    } else {
+        vec![0]
+    }
+}
+/// the full shape products (thorough)
+fn all_shapes_for(vi: usize) -> Vec<usize> {
+    if can_wmo(vi) {
+        (0..wmo_shapes().len()).collect()
+    } else if can_ml(vi) {
+        (0..ml_shapes().len()).collect()
     } else {
         vec![0]
     }
@@ -665,6 +699,10 @@ fn wdesc(space: &str, c: &WCase) -> Value {
 fn wkey(space: &str, c: &WCase) -> String {
     format!("{space}:v{}{}h{}o{}m{}", c.vi, c.t.key(), c.hmode, c.holemode, c.shape)
 }
+/// the three dense grids (full, checker, triangle: 2k-4k tiles, MBs per file)
+fn dense(p: usize) -> bool {
+    matches!(p, 1 | 8 | 12)
+}
 
 pub struct WdlRoundtrip {
     name: &'static str,
@@ -675,7 +713,7 @@ impl WdlRoundtrip {
         let mut cases = vec![];
         let holem: Vec<usize> = tier.pick(vec![2], vec![0, 1, 2]);
         let shapes: Vec<usize> = tier.pick(vec![3], vec![0, 2, 5]);
-        for vi in 0..6 {
+        for vi in 0..tier.pick(NV_Q, NV) {
             for &holemode in &holes_for(vi, &holem) {
                 for &shape in &shapes {
                     if !(can_wmo(vi) || can_ml(vi)) && shape != shapes[0] {
@@ -691,13 +729,17 @@ impl WdlRoundtrip {
     }
     pub fn main(tier: Tier) -> Self {
         let mut cases = vec![];
-        for vi in 0..6 {
-            for shape in shapes_for(vi) {
+        for vi in 0..tier.pick(NV_Q, NV) {
+            for shape in tier.pick(shapes_for(vi), all_shapes_for(vi)) {
                 for holemode in holes_for(vi, &[0, 1, 2, 3]) {
                     for hmode in 0..3 {
                         for p in 0..GRIDS.len() {
-                            // quick: the three dense grids (full, checker, triangle: 2k-4k tiles, MBs per file) only with hashed heights and two model shapes
-                            if tier == Tier::Quick && matches!(p, 1 | 8 | 12) && (hmode != 2 || !matches!(shape, 0 | 3)) {
+                            // quick: the three dense grids only with hashed heights and two model shapes
+                            if tier == Tier::Quick && dense(p) && (hmode != 2 || !matches!(shape, 0 | 3)) {
+                                continue;
+                            }
+                            // thorough: the dense grids with the 6 quick shapes, the 11 others with the full shape product
+                            if tier == Tier::Thorough && dense(p) && shape >= SHAPES_Q {
                                 continue;
                             }
                             cases.push(WCase { vi, t: TileSel::Pat(p), hmode, holemode, shape });
@@ -721,7 +763,7 @@ impl Space for WdlRoundtrip {
         let m = wmodel(c);
         let mut r = CaseResult::new();
         r.key = wkey(self.name, c);
-        r.nontrivial = !m.tiles.is_empty() || !m.names.is_empty() || !m.m2.is_empty() || !m.wmo2.is_empty();
+        r.nontrivial = !m.tiles.is_empty() || !m.names.is_empty() || !m.m2.is_empty() || !m.wmo2.is_empty() || !m.m2vis.is_empty() || !m.wmo2vis.is_empty();
         let f = build(&m);
         if extract(&f) != m {
             r.viol("harness: extract(build(definition)) != definition for WDL", "");
@@ -734,6 +776,9 @@ impl Space for WdlRoundtrip {
 /// every ordered pair of tiles (a has hole data, b has none): the second tile's offset depends on the first
 pub struct WdlPairs {
     firsts: Vec<u32>,
+    /// the 4096 second tiles are split into this many cases per first tile (1 in the quick tier)
+    nblocks: u32,
+    nver: usize,
 }
 impl WdlPairs {
     pub fn new(tier: Tier) -> Self {
@@ -747,28 +792,47 @@ impl WdlPairs {
                 firsts.push(y * 64 + x);
             }
         }
+        if tier == Tier::Thorough {
+            // + a second lattice that meets every row and every column: (x + 3y) % 8 == 5
+            for y in 0..64u32 {
+                for x in 0..64u32 {
+                    if (x + 3 * y) % 8 == 5 {
+                        firsts.push(y * 64 + x);
+                    }
+                }
+            }
+        }
         firsts.sort();
         firsts.dedup();
-        WdlPairs { firsts }
+        // quick: versions Wotlk..Legion by first tile; thorough: Wotlk..Latest
+        WdlPairs { firsts, nblocks: tier.pick(1, 8), nver: tier.pick(5, 9) }
+    }
+    fn decode(&self, i: u64) -> (u32, u32) {
+        (self.firsts[(i / self.nblocks as u64) as usize], (i % self.nblocks as u64) as u32)
+    }
+    pub fn first_count(&self) -> usize {
+        self.firsts.len()
     }
 }
 impl Space for WdlPairs {
     fn len(&self) -> u64 {
-        self.firsts.len() as u64
+        self.firsts.len() as u64 * self.nblocks as u64
     }
     fn describe(&self, i: u64) -> Value {
-        let a = self.firsts[i as usize];
-        json!({"space": "wdl_pairs", "format": "WDL", "version": VNAMES[1 + (a as usize % 5)], "tiles": {"first_tile_with_holes": {"x": a % 64, "y": a / 64}, "second_tile_without_holes": "each of the other 4095 tiles"}, "heights": HEIGHT_MODES[2]})
+        let (a, blk) = self.decode(i);
+        let second = if self.nblocks == 1 { "each of the other 4095 tiles".to_string() } else { format!("each other tile with index y*64+x in {}..{}", blk * (4096 / self.nblocks), (blk + 1) * (4096 / self.nblocks)) };
+        json!({"space": "wdl_pairs", "format": "WDL", "version": VNAMES[1 + (a as usize % self.nver)], "tiles": {"first_tile_with_holes": {"x": a % 64, "y": a / 64}, "second_tile_without_holes": second}, "heights": HEIGHT_MODES[2]})
     }
     fn run(&self, i: u64) -> CaseResult {
-        let a = self.firsts[i as usize];
-        let vi = 1 + (a as usize % 5);
+        let (a, blk) = self.decode(i);
+        let vi = 1 + (a as usize % self.nver);
         let mut r = CaseResult::new();
-        r.key = format!("wdl_pairs:{a}");
+        r.key = if self.nblocks == 1 { format!("wdl_pairs:{a}") } else { format!("wdl_pairs:{a}/{blk}") };
         r.nontrivial = true;
         let (ax, ay) = (a % 64, a / 64);
         let mut n = 0u64;
-        for b in 0..4096u32 {
+        let per = 4096 / self.nblocks;
+        for b in blk * per..(blk + 1) * per {
             if b == a {
                 continue;
             }
@@ -794,22 +858,223 @@ impl Space for WdlPairs {
     }
 }
 
+/// Every state of a 9-tile universe (thorough only): each tile absent / heights / heights + hole data.
+/// The offset of a tile depends on every tile before it in row-major order and on which of them carry a MAHO chunk.
+pub struct WdlSubsets {
+    cases: Vec<(usize, u32, usize)>,
+}
+/// corners, two horizontally adjacent tiles, one below them, and an asymmetric far pair
+pub const UNIVERSE: [(u32, u32); 9] = [(0, 0), (63, 0), (0, 63), (63, 63), (31, 31), (32, 31), (31, 32), (5, 40), (40, 5)];
+impl WdlSubsets {
+    pub fn new(_tier: Tier) -> Self {
+        let mut cases = vec![];
+        for vi in 0..NV {
+            let states: u32 = if can_holes(vi) { 3u32.pow(9) } else { 2u32.pow(9) };
+            for st in 0..states {
+                for shape in [0usize, 5] {
+                    if shape != 0 && !(can_wmo(vi) || can_ml(vi)) {
+                        continue;
+                    }
+                    cases.push((vi, st, shape));
+                }
+            }
+        }
+        WdlSubsets { cases }
+    }
+    /// per universe tile: 0 absent, 1 heights, 2 heights + holes
+    fn digits(vi: usize, st: u32) -> [u32; 9] {
+        let base = if can_holes(vi) { 3 } else { 2 };
+        let mut d = [0u32; 9];
+        let mut s = st;
+        for x in d.iter_mut() {
+            *x = s % base;
+            s /= base;
+        }
+        d
+    }
+}
+impl Space for WdlSubsets {
+    fn len(&self) -> u64 {
+        self.cases.len() as u64
+    }
+    fn describe(&self, i: u64) -> Value {
+        let (vi, st, shape) = self.cases[i as usize];
+        let d = Self::digits(vi, st);
+        let show: Vec<String> = UNIVERSE.iter().zip(d.iter()).filter(|(_, &s)| s != 0).map(|(&(x, y), &s)| format!("({x},{y}){}", if s == 2 { "+holes" } else { "" })).collect();
+        json!({"space": "wdl_subsets", "format": "WDL", "version": VNAMES[vi], "tiles": {"subset_of_9": show}, "heights": HEIGHT_MODES[2], "models": shape_name(vi, shape)})
+    }
+    fn run(&self, i: u64) -> CaseResult {
+        let (vi, st, shape) = self.cases[i as usize];
+        let d = Self::digits(vi, st);
+        let state = |x: u32, y: u32| UNIVERSE.iter().position(|&t| t == (x, y)).map(|k| d[k]).unwrap_or(0);
+        let mut m = make_model(vi, &|x, y| state(x, y) != 0, 2, 2, shape);
+        m.holes.retain(|&(x, y), _| state(x, y) == 2);
+        let mut r = CaseResult::new();
+        r.key = format!("wdl_subsets:v{vi}s{st}m{shape}");
+        r.nontrivial = st != 0 || shape != 0;
+        let f = build(&m);
+        r.outcome = roundtrip(&f, &m, "wdl", false, &mut r);
+        r
+    }
+}
+
+// ---- generated records for the large-list space
+fn gen_plc(k: usize, nidx: usize) -> Plc {
+    let k32 = k as u32;
+    let mut f = [0u32; 12];
+    for (j, x) in f.iter_mut().enumerate() {
+        *x = nn(mix(k32, j as u32, 61));
+    }
+    Plc { id: k32 ^ 0x4000_0000, wmo_id: if nidx == 0 { mix(k32, 0, 62) } else { k32 % nidx as u32 }, f, flags: mix(k32, 1, 62) as u16, dset: mix(k32, 2, 62) as u16, nset: mix(k32, 3, 62) as u16, pad: mix(k32, 4, 62) as u16 }
+}
+fn gen_m2(k: usize, salt: u32) -> M2 {
+    let k32 = k as u32;
+    let mut f = [0u32; 6];
+    for (j, x) in f.iter_mut().enumerate() {
+        *x = nn(mix(k32, j as u32, 63 + salt));
+    }
+    M2 { id: k32 ^ salt.rotate_left(20), m2_id: mix(k32, 7, 64 + salt), f, scale: nn(mix(k32, 8, 64 + salt)), flags: mix(k32, 9, 64 + salt) }
+}
+fn gen_vis(k: usize, salt: u32) -> Vis {
+    let k32 = k as u32;
+    let mut f = [0u32; 6];
+    for (j, x) in f.iter_mut().enumerate() {
+        *x = nn(mix(k32, j as u32, 65 + salt));
+    }
+    Vis { f, radius: nn(mix(k32, 6, 66 + salt)) }
+}
+fn records<T>(n: usize, small: impl Fn(u32) -> T, big: impl Fn(usize) -> T) -> Vec<T> {
+    (0..n).map(|k| if n <= 3 { small(k as u32) } else { big(k) }).collect()
+}
+
+/// Large lists (thorough only): record counts / name lengths around 255/256/65535/65536 in front of the offset table.
+pub struct WdlModels {
+    cases: Vec<(usize, [usize; 4])>,
+}
+pub const BIG_COUNTS: [usize; 8] = [0, 1, 2, 3, 255, 256, 257, 1024];
+pub const PLC_COUNTS: [usize; 9] = [0, 1, 2, 3, 255, 256, 257, 1024, 4096];
+/// MWID entry-count modes relative to the name count n
+pub const IDX_MODES: [&str; 4] = ["0 entries", "n entries", "n+1 entries", "1000 entries"];
+impl WdlModels {
+    pub fn new(_tier: Tier) -> Self {
+        let mut cases = vec![];
+        for vi in 0..NV {
+            if can_wmo(vi) {
+                // name shapes 2.. (a non-empty list: the writer emits the three WMO chunks only together with names)
+                for ns in 2..NAME_SHAPES.len() {
+                    for im in 0..IDX_MODES.len() {
+                        for pc in 0..PLC_COUNTS.len() {
+                            cases.push((vi, [ns, im, pc, 0]));
+                        }
+                    }
+                }
+            } else if can_ml(vi) {
+                for a in 0..BIG_COUNTS.len() {
+                    for av in 0..BIG_COUNTS.len() {
+                        for b in 0..BIG_COUNTS.len() {
+                            for bv in 0..BIG_COUNTS.len() {
+                                cases.push((vi, [a, av, b, bv]));
+                            }
+                        }
+                    }
+                }
+            }
+        }
+        WdlModels { cases }
+    }
+    fn model(vi: usize, k: [usize; 4]) -> WdlModel {
+        // two tiles (one with holes) behind the lists: their offsets move with the list sizes
+        let mut m = make_model(vi, &|x, y| (x, y) == (63, 0) || (x, y) == (1, 0), 2, 3, 0);
+        if can_wmo(vi) {
+            let names = name_shape(k[0]).expect("name shape");
+            let n = names.len();
+            let mut off = 0u32;
+            let mut offs = vec![];
+            for s in &names {
+                offs.push(off);
+                off += s.len() as u32 + 1;
+            }
+            let ni = [0, n, n + 1, 1000][k[1]];
+            m.indices = (0..ni).map(|j| if j < n { offs[j] } else { mix(j as u32, 5, 92) }).collect();
+            m.names = names;
+            m.placements = records(PLC_COUNTS[k[2]], |j| plc(j, j % n.max(1) as u32), |j| gen_plc(j, ni));
+        } else {
+            m.m2 = records(BIG_COUNTS[k[0]], |j| m2(j, 0), |j| gen_m2(j, 0));
+            m.m2vis = records(BIG_COUNTS[k[1]], |j| vis(j, 0), |j| gen_vis(j, 0));
+            m.wmo2 = records(BIG_COUNTS[k[2]], |j| m2(j, 100), |j| gen_m2(j, 100));
+            m.wmo2vis = records(BIG_COUNTS[k[3]], |j| vis(j, 100), |j| gen_vis(j, 100));
+        }
+        m
+    }
+}
+impl Space for WdlModels {
+    fn len(&self) -> u64 {
+        self.cases.len() as u64
+    }
+    fn describe(&self, i: u64) -> Value {
+        let (vi, k) = self.cases[i as usize];
+        let models = if can_wmo(vi) {
+            json!({"mwmo": NAME_SHAPES[k[0]], "mwid": IDX_MODES[k[1]], "modf_records": PLC_COUNTS[k[2]]})
+        } else {
+            json!({"mldd": BIG_COUNTS[k[0]], "mldx": BIG_COUNTS[k[1]], "mlmd": BIG_COUNTS[k[2]], "mlmx": BIG_COUNTS[k[3]]})
+        };
+        json!({"space": "wdl_models", "format": "WDL", "version": VNAMES[vi], "tiles": GRIDS[11], "heights": HEIGHT_MODES[2], "holes": HOLE_MODES[3], "models": models})
+    }
+    fn run(&self, i: u64) -> CaseResult {
+        let (vi, k) = self.cases[i as usize];
+        let m = Self::model(vi, k);
+        let mut r = CaseResult::new();
+        r.key = format!("wdl_models:v{vi}k{:?}", k);
+        r.nontrivial = true;
+        let f = build(&m);
+        r.outcome = roundtrip(&f, &m, "wdl", false, &mut r);
+        r
+    }
+    fn case_timeout(&self) -> u64 {
+        120
+    }
+}
+
+/// why a conversion was refused: holes that the target cannot store are a documented refusal
+fn refusal_class(m: &WdlModel, to: usize) -> &'static str {
+    if !can_holes(to) && !m.holes.is_empty() {
+        "holes -> version without MAHO"
+    } else {
+        "other"
+    }
+}
+
+/// grids on which the thorough conversion space runs the full model-shape product
+pub const CONV_FULL_SHAPE_GRIDS: [usize; 5] = [0, 9, 10, 11, 13];
+
 pub struct WdlConv {
     cases: Vec<(WCase, usize)>,
 }
 impl WdlConv {
     pub fn new(tier: Tier) -> Self {
         let grids: Vec<usize> = tier.pick(vec![0, 9, 11, 13, 10], (0..GRIDS.len()).collect());
+        let nv = tier.pick(NV_Q, NV);
         let mut cases = vec![];
-        for vi in 0..6 {
-            for to in 0..6 {
-                for shape in shapes_for(vi) {
-                    if !matches!(shape, 0 | 3 | 5) {
-                        continue;
-                    }
-                    for holemode in holes_for(vi, &[0, 2, 3]) {
+        for vi in 0..nv {
+            for to in 0..nv {
+                for shape in tier.pick(shapes_for(vi), all_shapes_for(vi)) {
+                    for holemode in holes_for(vi, &[0, 1, 2, 3]) {
                         for &p in &grids {
-                            cases.push((WCase { vi, t: TileSel::Pat(p), hmode: 2, holemode, shape }, to));
+                            let keep = match tier {
+                                Tier::Quick => matches!(shape, 0 | 3 | 5) && holemode != 1,
+                                // thorough: all 4 hole modes x (the full shape product on 5 sparse grids, the 6 quick shapes on the
+                                // 6 other sparse grids); 2 shapes x 2 hole modes on the 3 dense grids
+                                Tier::Thorough => {
+                                    if dense(p) {
+                                        matches!(shape, 0 | 5) && matches!(holemode, 0 | 2)
+                                    } else {
+                                        shape < SHAPES_Q || CONV_FULL_SHAPE_GRIDS.contains(&p)
+                                    }
+                                }
+                            };
+                            if keep {
+                                cases.push((WCase { vi, t: TileSel::Pat(p), hmode: 2, holemode, shape }, to));
+                            }
                         }
                     }
                 }
@@ -885,6 +1150,148 @@ impl Space for WdlConv {
         expect.version_number = 18;
         let oc = roundtrip(&conv, &expect, "wdl convert->write", false, &mut r);
         r.outcome = format!("converted models:{}->{} holes:{}->{} | {}", !(m.names.is_empty() && m.wmo2.is_empty() && m.m2.is_empty()), !(cm.names.is_empty() && cm.wmo2.is_empty() && cm.m2.is_empty()), !m.holes.is_empty(), !cm.holes.is_empty(), oc);
+        r
+    }
+}
+
+/// hole masks with "no record" read as "no holes" (all bits set), the default the converter itself fills in
+fn holes_semantic(m: &WdlModel) -> BTreeMap<(u32, u32), [u16; 16]> {
+    m.tiles.keys().map(|k| (*k, m.holes.get(k).copied().unwrap_or([0xFFFF; 16]))).collect()
+}
+
+/// Conversion chains from a parsed state (thorough only):
+/// build -> write -> parse -> convert A->B -> write -> parse -> convert B->C, against the direct conversion A->C.
+pub struct WdlChain {
+    cases: Vec<(WCase, usize, usize)>,
+}
+impl WdlChain {
+    pub fn new(_tier: Tier) -> Self {
+        let mut cases = vec![];
+        for vi in 0..NV {
+            for b in 0..NV {
+                for to in 0..NV {
+                    for shape in shapes_for(vi) {
+                        for holemode in holes_for(vi, &[0, 1, 2, 3]) {
+                            for p in [10usize, 11, 9, 13] {
+                                // the 585-tile sparse grid only without models
+                                if p == 13 && shape != 0 {
+                                    continue;
+                                }
+                                cases.push((WCase { vi, t: TileSel::Pat(p), hmode: 2, holemode, shape }, b, to));
+                            }
+                        }
+                    }
+                }
+            }
+        }
+        WdlChain { cases }
+    }
+}
+fn parse_as(v: WdlVersion, bytes: &[u8]) -> Result<WdlFile, String> {
+    WdlParser::with_version(v).parse(&mut Cursor::new(bytes)).map_err(|e| e.to_string())
+}
+impl Space for WdlChain {
+    fn len(&self) -> u64 {
+        self.cases.len() as u64
+    }
+    fn describe(&self, i: u64) -> Value {
+        let (c, b, to) = &self.cases[i as usize];
+        let mut d = wdesc("wdl_chain", c);
+        d["from"] = d["version"].take();
+        d.as_object_mut().unwrap().remove("version");
+        d["via"] = json!(VNAMES[*b]);
+        d["to"] = json!(VNAMES[*to]);
+        d
+    }
+    fn run(&self, i: u64) -> CaseResult {
+        let (c, b, to) = &self.cases[i as usize];
+        let (b, to) = (*b, *to);
+        let m = wmodel(c);
+        let mut r = CaseResult::new();
+        r.key = format!("{}>{}>{}", wkey("wdl_chain", c), b, to);
+        r.nontrivial = true;
+        let path = format!("{}->{}->{}", VNAMES[c.vi], VNAMES[b], VNAMES[to]);
+        // parsed source state
+        let f0 = build(&m);
+        let Ok(bytes0) = write_wdl(m.version, &f0) else {
+            r.err_return = true;
+            r.outcome = "writer refused the source".into();
+            return r;
+        };
+        let p0 = match parse_as(m.version, &bytes0) {
+            Ok(p) => p,
+            Err(e) => {
+                r.viol("wdl chain: parser rejects the writer's output", format!("{path} source: {e}"));
+                return r;
+            }
+        };
+        let direct = convert_wdl_file(&p0, VERSIONS[to]);
+        let mut cur = p0;
+        let mut all_hold_holes = can_holes(c.vi);
+        for (step, &nv) in [b, to].iter().enumerate() {
+            let src = extract(&cur);
+            let next = match convert_wdl_file(&cur, VERSIONS[nv]) {
+                Ok(g) => g,
+                Err(e) => {
+                    r.err_return = true;
+                    r.count(if refusal_class(&src, nv) == "other" { "wdl_chain_refused_other" } else { "wdl_chain_refused_holes_into_version_without_holes" }, 1);
+                    r.outcome = format!("convert refused at step {} ({}): {}", step + 1, refusal_class(&src, nv), e.to_string().chars().take(50).collect::<String>());
+                    return r;
+                }
+            };
+            r.count("wdl_chain_conversions", 1);
+            all_hold_holes &= can_holes(nv);
+            let x = extract(&next);
+            if x.tiles != m.tiles {
+                r.viol("wdl chain: per-tile heights (MARE) changed along write->parse->convert->write->parse->convert", format!("{path} after step {}: tiles before {} after {}", step + 1, m.tiles.len(), x.tiles.len()));
+                return r;
+            }
+            if all_hold_holes && x.holes != m.holes {
+                r.viol("wdl chain: per-tile hole masks (MAHO) changed along a path of versions that all store holes", format!("{path} after step {}: before {} after {}", step + 1, m.holes.len(), x.holes.len()));
+            }
+            // the converted state must survive write -> parse with the source heights in its bytes
+            let mut expect = x.clone();
+            expect.tiles = m.tiles.clone();
+            expect.version_number = 18;
+            let oc = roundtrip(&next, &expect, "wdl chain->write", true, &mut r);
+            if step == 0 {
+                let Ok(bytes1) = write_wdl(VERSIONS[nv], &next) else {
+                    r.err_return = true;
+                    r.outcome = "writer refused the intermediate file".into();
+                    return r;
+                };
+                cur = match parse_as(VERSIONS[nv], &bytes1) {
+                    Ok(p) => p,
+                    Err(_) => return r, // already reported by roundtrip
+                };
+            } else {
+                cur = next;
+                r.outcome = format!("chain ok | {oc}");
+            }
+        }
+        let chain = extract(&cur);
+        match direct {
+            Ok(d) => {
+                let d = extract(&d);
+                if d.tiles != chain.tiles {
+                    r.viol("wdl chain: per-tile heights after A->B->C differ from the direct conversion A->C", path.clone());
+                }
+                // both ends store holes: the masks must agree when "no record" is read as "no holes"
+                if can_holes(to) && holes_semantic(&d) != holes_semantic(&chain) {
+                    r.viol("wdl chain: per-tile hole masks after A->B->C differ from the direct conversion A->C (no record = no holes)", path.clone());
+                }
+                if d.names != chain.names || d.placements != chain.placements || d.m2 != chain.m2 || d.wmo2 != chain.wmo2 {
+                    r.count("wdl_chain_differs_from_direct_in_model_data", 1); // observation, not judged
+                }
+            }
+            Err(_) => r.count("wdl_chain_ok_where_direct_conversion_refuses", 1),
+        }
+        if c.vi == to {
+            r.count("wdl_chain_round_trips_a_b_a", 1);
+            if can_holes(to) && holes_semantic(&chain) != holes_semantic(&m) {
+                r.viol("wdl chain: per-tile hole masks after A->B->A differ from the source (no record = no holes)", path.clone());
+            }
+        }
         r
     }
 }
